@@ -11,6 +11,10 @@
   attribution      the requirement / version set / solvables placed on an edge are the clause's own fields; the candidates of
                    a requires edge come from the cache lookup of that same requirement; no candidates -> the unresolved node
   reachability     the all-nodes-reachable assertion at the end of graph() is a plain assert (present without debug assertions)
+
+Added after the second and third seeding rounds:
+  arm:<kind>:edge-on-every-path  every reported clause yields its edge (no path through an arm of Conflict::graph skips add_edge;
+                the ForbidMultiple chain's first node is the only exception); requires edges are added unconditionally per candidate
 """
 from common import *
 import q, enc
